@@ -1,40 +1,60 @@
 (* Corr/C09.v — comparison used by the generated cases_C09_*.v files.
 
-   A case is one compiled object of the harness zoo:
-   * [cc_solo]  : per call spec (paradigm x input x option set) what the implementation
-                  did when that call ran ALONE (recorded first, by the harness): the
-                  canonical multiset (sorted list) of events (node executions, state
-                  handler calls, model / tool calls, callback events seen by the call's
-                  own handler) and the code of the canonically rendered result;
-   * [cc_runs]  : per concurrent call: its spec and what was observed for it while
-                  8 / 32 goroutines were calling the same compiled object;
-   * [cc_sched] : the observed global interleaving: the run index of every event in the
-                  order in which the events were logged.
+   A case is one compiled object of the harness zoo, K call specs and the observations of
+   one concurrent phase:
+   * [cc_obj], [cc_calls] : the compiled record (graph description printed by the harness
+                  from what it built through the public API) and, per call spec, what the call
+                  brings (input, options, runtime step limit) — present for the kinds of
+                  objects Model/IsolationEngine.v models;
+   * [cc_tab]   : the distinct observations made on the implementation (rendered result,
+                  sorted event list); observations are referred to by index;
+   * [cc_solo]  : per call spec, the observation of that call made ALONE;
+   * [cc_runs]  : per concurrent call, its spec and its observation while 8-32 goroutines
+                  were calling the same compiled object;
+   * [cc_sched] : the observed global interleaving (run index of every event in time order,
+                  two letters a..p per entry).
 
-   The model side runs the product system of Model/Isolation.v (instance 3: a run emits
-   the events its spec emitted solo) under the OBSERVED schedule and compares, per run,
-   the model's observable with the implementation's.  So the tie for C09 is
-   "concurrent = solo on the implementation" (direct oracle, re-evaluated here through
-   the product LTS) — the solo prediction is itself an observation; Coq contributes that
-   the equality does not depend on the schedule (Props/C09.v) under the hypothesis that
-   runs only read the compiled record. *)
-From Eino Require Import Base.Util Model.Isolation.
+   Model side.  With [cc_obj = Some c]: the product system of Model/Isolation.v over the
+   engine ([lift estep]), one run per concurrent call initialised from the call's input and
+   options alone, is driven by the observed interleaving and then run to completion; every
+   run's observable (rendered result, sorted node-level events) must equal what was observed
+   for that call, and the engine run alone must equal the solo observation: the model
+   PREDICTS both, nothing observed enters the prediction.  With [cc_obj = None] (kinds not
+   modelled): the replay machine (instance 3) whose compiled record is the solo table — the
+   comparison is then "concurrent = solo on the implementation", re-evaluated through the
+   product system. *)
+From Eino Require Import Base.Util Model.Isolation Model.IsolationEngine.
 
 Record ccase : Type := CCase {
-  cc_solo : list tspec;
-  cc_runs : list (nat * (list N * N));
-  cc_sched : list nat
+  cc_obj : option cobj;
+  cc_calls : list call;
+  cc_tab : list (string * list string);
+  cc_solo : list nat;
+  cc_runs : list (nat * nat);
+  cc_sched : string
 }.
 
-Fixpoint nlist_eqb (a b : list N) : bool :=
+Fixpoint sched_of (s : string) : list nat :=
+  match s with
+  | String a (String b s') => (16 * (nat_of_ascii a - 97) + (nat_of_ascii b - 97)) :: sched_of s'
+  | _ => []
+  end.
+
+Fixpoint slist_eqb (a b : list string) : bool :=
   match a, b with
   | [], [] => true
-  | x :: a', y :: b' => N.eqb x y && nlist_eqb a' b'
+  | x :: a', y :: b' => String.eqb x y && slist_eqb a' b'
   | _, _ => false
   end.
 
-Definition obs_eqb (a b : list N * N) : bool :=
-  nlist_eqb (fst a) (fst b) && N.eqb (snd a) (snd b).
+Definition obs_eqb (a b : string * list string) : bool :=
+  String.eqb (fst a) (fst b) && slist_eqb (snd a) (snd b).
+
+Definition oobs_eqb (a b : option (string * list string)) : bool :=
+  match a, b with
+  | Some x, Some y => obs_eqb x y
+  | _, _ => false
+  end.
 
 Fixpoint all2 {A B} (p : A -> B -> bool) (l : list A) (m : list B) : bool :=
   match l, m with
@@ -43,21 +63,70 @@ Fixpoint all2 {A B} (p : A -> B -> bool) (l : list A) (m : list B) : bool :=
   | _, _ => false
   end.
 
-Definition model_runs (c : ccase) : option (list (option (list N * N))) :=
-  match grun (lift tstep) (cc_sched c) (cc_solo c, map (fun r => tinit (fst r)) (cc_runs c)) with
-  | None => None                         (* the observed schedule is not a schedule of the model *)
-  | Some (_, finals) => Some (map (tobs (cc_solo c)) finals)
+Fixpoint sequence {A} (l : list (option A)) : option (list A) :=
+  match l with
+  | [] => Some []
+  | None :: _ => None
+  | Some a :: l' => match sequence l' with Some r => Some (a :: r) | None => None end
   end.
 
-Definition bad (c : ccase) : bool :=
-  match model_runs c with
+Definition fuel : nat := 80.
+
+(* observables of the concurrent calls according to the model *)
+Definition model_runs_engine (c : cobj) (cs : ccase) : option (list (option (string * list string))) :=
+  match sequence (map (fun r => nth_error (cc_calls cs) (fst r)) (cc_runs cs)) with
+  | None => None
+  | Some calls =>
+      let inits := map (einit c) calls in
+      let (g1, _) := gdrive (lift estep) (sched_of (cc_sched cs)) (c, inits) in
+      let (g2, _) := gfinish (lift estep) fuel (seq 0 (List.length inits)) g1 in
+      if all_final (lift estep) g2
+      then Some (map (fun kr => cobs (fst kr) (snd kr)) (combine calls (snd g2)))
+      else None
+  end.
+
+Definition solo_table (cs : ccase) : option (list tspec) :=
+  sequence (map (fun i => option_map (fun o => {| t_events := snd o; t_result := fst o |}) (nth_error (cc_tab cs) i))
+                (cc_solo cs)).
+
+Definition model_runs_replay (cs : ccase) : option (list (option (string * list string))) :=
+  match solo_table cs with
+  | None => None
+  | Some tab =>
+      let (g1, _) := gdrive (lift tstep) (sched_of (cc_sched cs)) (tab, map (fun r => tinit (fst r)) (cc_runs cs)) in
+      let (g2, _) := gfinish (lift tstep) 4096 (seq 0 (List.length (cc_runs cs))) g1 in
+      if all_final (lift tstep) g2 then Some (map (tobs tab) (snd g2)) else None
+  end.
+
+Definition model_runs (cs : ccase) : option (list (option (string * list string))) :=
+  match cc_obj cs with
+  | Some c => model_runs_engine c cs
+  | None => model_runs_replay cs
+  end.
+
+(* the solo observations against the engine run alone *)
+Definition solo_ok (cs : ccase) : bool :=
+  match cc_obj cs with
+  | None => true
+  | Some c =>
+      all2 (fun k i => oobs_eqb (erun c fuel k) (nth_error (cc_tab cs) i)) (cc_calls cs) (cc_solo cs)
+  end.
+
+Definition bad (cs : ccase) : bool :=
+  match model_runs cs with
   | None => true
   | Some obs =>
-      negb (all2 (fun o run => match o with Some o' => obs_eqb o' (snd run) | None => false end)
-                 obs (cc_runs c))
+      negb (all2 (fun o run => oobs_eqb o (nth_error (cc_tab cs) (snd run))) obs (cc_runs cs))
+      || negb (solo_ok cs)
   end.
 
 Definition mismatches (cs : list ccase) : list nat := mismatches_from bad 0 cs.
 
-(* helper used by the harness printer *)
-Definition TS (ev : list N) (res : N) : tspec := {| t_events := ev; t_result := res |}.
+(* helpers used by the harness printer *)
+Definition CO (g : graph) (d : nat) : cobj := {| co_graph := g; co_depth := d |}.
+Definition CA (v : val) (os : list copt) (m : option nat) (f : bool) (suffix : string) : call :=
+  {| ca_in := v; ca_opts := os; ca_max := m; ca_fut := f; ca_suffix := suffix |}.
+Definition TC (id name args : string) : tcall := {| tc_id := id; tc_name := name; tc_args := args |}.
+Definition MSG (role content : string) (calls : list tcall) : msg :=
+  {| m_role := role; m_content := content; m_calls := calls; m_for := "" |}.
+Definition OP (k : N) (ps : list (list string)) (v : string) : copt := {| o_kind := k; o_paths := ps; o_val := v |}.
